@@ -27,7 +27,7 @@ import z3
 from . import sym
 from .sym import SymInt, SymBool, EngineError, branch, mk, mks, And, cur
 from .core import StopPath
-from .lists import SymRange, SeqList, ArrList
+from .lists import SymRange, SeqList, ArrList, EnumView
 
 
 def loop_ordinal(func, node):
@@ -48,18 +48,20 @@ class Forall:
         return sym.Implies(And(self.lo <= q, q < self.hi), self.body(q))
 
 
-def prove_forall(env, path, clause, goal, facts, props, extra_instances=()):
+def prove_forall(env, path, clause, goal, facts, props, extra_instances=(), hyps=None):
     """skolemise `goal` with a fresh index q and prove
           (lo <= q < hi) and (instances of every fact at q and at extra_instances(q))  ==>  body(q)
     as ONE implication: nothing is added to the path condition (an empty range must not make the path vacuous)."""
     path.fresh += 1
     q = SymInt(z3.Int("q!%d" % path.fresh))
-    hyps = [goal.lo <= q, q < goal.hi]
+    hs = [goal.lo <= q, q < goal.hi]
     for f in facts:
-        hyps.append(f.instance(q))
+        hs.append(f.instance(q))
         for t in (extra_instances(q) if extra_instances else ()):
-            hyps.append(f.instance(t))
-    return env.ensure(clause, sym.Implies(And(*hyps), goal.body(q)), props)
+            hs.append(f.instance(t))
+    if hyps is not None:
+        hs.extend(hyps(q))
+    return env.ensure(clause, sym.Implies(And(*hs), goal.body(q)), props)
 
 
 class LoopCtx:
@@ -78,8 +80,10 @@ class LoopSpec:
     step(ctx, i, ghost) -> ghost          ghost update performed by one iteration (after the body ran)
     """
 
-    def __init__(self, props, init, havoc, inv, step, name="loop"):
+    def __init__(self, props, init, havoc, inv, step, name="loop", hyps=None, assume=None):
         self.props, self.init, self.havoc, self.inv, self.step, self.name = props, init, havoc, inv, step, name
+        self.hyps = hyps        # hyps(ctx, i, q) -> extra hypothesis instances (named instances of preconditions / lemmas) for index q
+        self.assume = assume    # assume(ctx, i) -> precondition instances needed by the body at iteration i (assumed on the step path)
 
 
 class CallSpec:
@@ -155,7 +159,7 @@ class Verifier:
                     raise EngineError("loop cut on stepped range")
                 a, b = it.start, it.stop
                 elem = lambda i: i
-            elif isinstance(it, (SeqList, ArrList)):
+            elif isinstance(it, (SeqList, ArrList, EnumView)):
                 a, b = 0, it.length()
                 elem = lambda i: it.getitem(interp, i)
             else:
@@ -166,7 +170,8 @@ class Verifier:
             p = cur()
             for item in spec.inv(ctx, a, g0):
                 if isinstance(item, Forall):
-                    prove_forall(env, p, "%s::inv-init:%s" % (name, item.name), item, [], spec.props)
+                    prove_forall(env, p, "%s::inv-init:%s" % (name, item.name), item, [], spec.props,
+                                 hyps=(lambda q: spec.hyps(ctx, a, q)) if spec.hyps else None)
                 else:
                     env.ensure("%s::inv-init:%s" % (name, item[0]), item[1], spec.props)
             p.fresh += 1
@@ -183,6 +188,9 @@ class Verifier:
                         facts.append(item)
                     else:
                         p.assume(item[1])
+                if spec.assume:
+                    for c in spec.assume(ctx, i):
+                        p.assume(c)
                 interp.assign(node.target, elem(i), frame)
                 r = interp.exec_block(node.body, frame)
                 if r is not None:
@@ -197,7 +205,7 @@ class Verifier:
                 for item in spec.inv(ctx, i + 1, g2):
                     if isinstance(item, Forall):
                         prove_forall(env, p, "%s::inv-step:%s" % (name, item.name), item, [f for f in facts if f.name == item.name],
-                                     spec.props)
+                                     spec.props, hyps=(lambda q: spec.hyps(ctx, i, q)) if spec.hyps else None)
                     else:
                         env.ensure("%s::inv-step:%s" % (name, item[0]), item[1], spec.props)
                 raise StopPath()
@@ -207,7 +215,8 @@ class Verifier:
                     self.facts.append(item)
                 else:
                     p.assume(item[1])
-            interp.assign(node.target, elem(b - 1) if not isinstance(it, (SeqList, ArrList)) else None, frame)
+            if not isinstance(it, (SeqList, ArrList, EnumView)):
+                interp.assign(node.target, elem(b - 1), frame)
             return (None,)
         raise EngineError("loop cut on while: use WhileSpec")
 
